@@ -42,6 +42,10 @@ CLAIMED = {
          'For every tree and every element / text / comment / PI node: eval (path_of n) = [n] and distinct nodes have distinct paths (induction over the index path, k-th matching sibling lemma). The pre-fix counting rule is refuted by a kernel-checked witness (fixed in /repo). The string level (Q{ns}local[n] formatting, the 3.0/3.1 parser, attribute / namespace / document node paths, fragment prefix) is correspondence: every node of every generated tree, both libraries, document and element roots. PI targets that are keywords / pi cannot be parsed back: known finding.',
          'Trusted: Coq kernel; harness formatting of steps and node identity mapping; C01 for the meaning of child::test[n]. No axioms.',
          'DESIGN.md §6 C14'),
+ 'C19': ('Coq proof of the CollationManager lock / LC_COLLATE state machine with setlocale as an unconstrained oracle (sequential restoration, interleaving invariant: mutex, locale restored, no deadlock); fault-sequence correspondence in fresh watchdogged sub-processes',
+         'PARTIAL. Proved for every oracle, collation argument, body outcome and sequence of blocks: afterwards the lock is free and LC_COLLATE is what it was; for every interleaving of N threads the lock is held iff exactly one thread is inside a locale block, LC_COLLATE is the initial one when none is, and some thread can always move. The pre-fix enter is refuted by a kernel-checked witness (fixed in /repo). Real scheduling, the C library locale, expat entity handling, os.environ and the decimal context are runtime: observed by fault sequences (all pairs of collation arguments + random sequences over 11 collation-using functions), entity inputs, environment-variable gating and threads-vs-sequential runs.',
+         'Trusted: Coq kernel; measured availability oracle; harness mapping of collation URIs to (locale, fallback); sub-process watchdog. No axioms.',
+         'DESIGN.md §6 C19'),
 }
 
 NOT_YET = {}
